@@ -140,6 +140,11 @@ def run_tool(argv, cwd, root=None, plan=None, clock=None, env=None, san=False, p
     """See _run_tool.  A run that exceeds the wall limit is executed once more with three times the limit before it
     counts as a hang: the limit exists to detect non-termination, not slowness on a loaded machine."""
     r = _run_tool(argv, cwd, root, plan, clock, env, san, preload, stdin, wall)
+    if r.signal == signal.SIGKILL and not r.timeout:
+        # SIGKILL that is not our own wall-limit kill comes from outside the simulation (the kernel's out-of-memory killer
+        # on an overloaded machine; the tools never send it and the CPU limit arrives as SIGXCPU): not an outcome of the
+        # tool -- run once more
+        r = _run_tool(argv, cwd, root, plan, clock, env, san, preload, stdin, wall)
     if r.timeout and confirm_timeout and r.signal != signal.SIGXCPU:
         r2 = _run_tool(argv, cwd, root, plan, clock, env, san, preload, stdin, wall * 3)
         return r2
